@@ -90,6 +90,85 @@ func init() {
 			return vs
 		}
 	}
+	// the last handle closes while another goroutine opens the bucket again, starts a feed and writes:
+	// a handle that OpenBucket returned stays fully usable until IT is closed
+	openFeedWrite := []SOp{
+		{Name: "Open", Do: func(w *SWorld, st *TState) (string, []uint64) {
+			b, err := rosmar.OpenBucket(BucketURL(w.Cfg, "b1"), "b1", rosmar.ReOpenExisting)
+			if err != nil {
+				return "err:" + err.Error(), nil
+			}
+			w.Extra = append(w.Extra, b)
+			st.Vals["h"] = fmt.Sprint(len(w.Extra) - 1)
+			return "ok", nil
+		}},
+		{Name: "start feed + write + read back", Do: func(w *SWorld, st *TState) (string, []uint64) {
+			if st.Vals["h"] == "" {
+				return "nohandle", nil
+			}
+			var i int
+			fmt.Sscanf(st.Vals["h"], "%d", &i)
+			ds, err := w.Extra[i].NamedDataStore(NameA)
+			if err != nil {
+				return "err:" + err.Error(), nil
+			}
+			c := ds.(*rosmar.Collection)
+			f, err := StartLiveFeed(c, "h3feed")
+			if err != nil {
+				return "err:" + err.Error(), nil
+			}
+			w.Feeds = append(w.Feeds, f)
+			if err := c.SetRaw("w", 0, nil, []byte("1")); err != nil {
+				return "err:" + err.Error(), nil
+			}
+			vrt.Yield("let deliveries happen")
+			if _, _, err := c.GetRaw("w"); err != nil {
+				return "err:" + err.Error(), nil
+			}
+			st.Vals["feed"] = fmt.Sprint(len(w.Feeds) - 1)
+			return "ok", nil
+		}},
+	}
+	closeFirst := []SOp{{Name: "Close(first handle)", Do: func(w *SWorld, st *TState) (string, []uint64) {
+		w.Extra[0].Close(ctx)
+		return "ok", nil
+	}}}
+	RegisterScenario(&Scenario{Name: "O-lastclose-vs-open-feed/disk", Prop: []string{"C13", "C16"}, Disk: true, NoOpen: true,
+		Setup: func(w *SWorld) {
+			setup(w)
+			b, err := rosmar.OpenBucket(BucketURL(w.Cfg, "b1"), "b1", rosmar.ReOpenExisting)
+			must(err)
+			w.Extra = append(w.Extra, b)
+		},
+		Threads: [][]SOp{closeFirst, openFeedWrite},
+		Check: func(w *SWorld, ops []OpRec, final string) []Violation {
+			var vs []Violation
+			name := "O-lastclose-vs-open-feed/disk"
+			for _, o := range ops {
+				if (o.Name == "Open" || strings.HasPrefix(o.Name, "start feed")) && o.Out != "ok" {
+					vs = append(vs, Violation{Prop: "C13", Op: name, Pre: "sched", Field: "open-handle-unusable", Detail: fmt.Sprintf("%s through a handle OpenBucket had just returned: %s", o.Name, o.Out)})
+				}
+			}
+			// the new handle is still open: its feed must still be running and must have seen the write
+			for _, f := range w.Feeds {
+				if f.Name != "h3feed" {
+					continue
+				}
+				if f.DoneClosed() {
+					vs = append(vs, Violation{Prop: "C16", Op: name, Pre: "sched", Field: "stopped", Detail: "closing the previous last handle ended a feed started through a handle that is still open"})
+				}
+				got := false
+				for _, e := range f.Events {
+					if e.Key == "w" {
+						got = true
+					}
+				}
+				if !got {
+					vs = append(vs, Violation{Prop: "C16", Op: name, Pre: "sched", Field: "starved", Detail: fmt.Sprintf("the feed of the still-open handle never received the write made through it: %v", f.Events)})
+				}
+			}
+			return vs
+		}})
 	RegisterScenario(&Scenario{Name: "O-open2/disk", Prop: []string{"C13"}, Disk: true, NoOpen: true, Setup: setup,
 		Threads: [][]SOp{openProbeClose(rosmar.ReOpenExisting, false), openProbeClose(rosmar.CreateOrOpen, true)}, Check: check("O-open2/disk")})
 	RegisterScenario(&Scenario{Name: "O-open3/disk", Prop: []string{"C13"}, Disk: true, NoOpen: true, Setup: setup,
